@@ -496,7 +496,7 @@ Proof. unfold cb_boolean. disc_cases. Qed.
 Lemma cb_usersize_disciplined s uc dc gc : disciplined (cb_usersize s uc dc gc).
 Proof. unfold cb_usersize. cbv zeta. disc_cases. Qed.
 
-Lemma cb_smtpbugs_disciplined s uc dc gc : disciplined (cb_smtpbugs s uc dc gc).
+Lemma cb_smtpbugs_disciplined sb s uc dc gc : disciplined (cb_smtpbugs sb s uc dc gc).
 Proof. unfold cb_smtpbugs. cbv zeta. disc_cases. Qed.
 
 Lemma spf_switch_temp p x : spf_switch p x = STemp -> x = SPF_TEMPERROR.
@@ -529,12 +529,12 @@ Proof.
     + unfold disciplined. simpl. discriminate.
 Qed.
 
-Lemma run_slot_disciplined id sl s uc dc gc x :
+Lemma run_slot_disciplined sb id sl s uc dc gc x :
   (sl = RealFilter -> id = ID_SPF ->
      (N.eqb (s_spf s) SPF_TEMPERROR
       && (0 <? setting_value (getsettingglobal uc dc gc KEY_SPFPOLICY))%Z
       && (setting_value (getsetting uc dc gc KEY_SPF_FAIL_HARD) <=? 0)%Z) = false) ->
-  run_slot id sl s uc dc gc = Some x -> disciplined x.
+  run_slot sb id sl s uc dc gc = Some x -> disciplined x.
 Proof.
   intros Hcl H. destruct sl as [r|]; simpl in H.
   - inversion H; subst x. unfold disciplined. simpl.
@@ -555,14 +555,14 @@ Proof.
   - discriminate.
 Qed.
 
-Lemma all_results_disciplined slots s uc dc gc results :
+Lemma all_results_disciplined sb slots s uc dc gc results :
   spf_temp_class slots s uc dc gc = false ->
-  all_results slots s uc dc gc = Some results -> Forall disciplined results.
+  all_results sb slots s uc dc gc = Some results -> Forall disciplined results.
 Proof.
   intros Hcl H. unfold all_results in H.
   apply (sequence_forall disciplined _ _ H).
   intros x Hin. apply in_map_iff in Hin. destruct Hin as [id [Hrun _]].
-  apply (run_slot_disciplined id (nth id slots (Standin FPassed)) s uc dc gc); [|exact Hrun].
+  apply (run_slot_disciplined sb id (nth id slots (Standin FPassed)) s uc dc gc); [|exact Hrun].
   intros Hreal Hid. subst id. unfold spf_temp_class in Hcl. rewrite Hreal in Hcl. exact Hcl.
 Qed.
 
@@ -644,6 +644,17 @@ Lemma templates_fit o : is_byfilter o = false ->
   reply_fits o (match model_reply o with RNone => [] | RLine t => [head9 t] end) (is_accept o) = true.
 Proof. destruct o; intros H; try discriminate; reflexivity. Qed.
 
+(** THE obligation of the sticky space-bug flag: smtp_rcpt only ever sets xmitstat.spacebug, so what the filters
+    see is the documented flag.  (SPACEBUG_STICKY is computed by the translator from the text of smtp_rcpt.) *)
+Lemma spacebug_is_sticky : SPACEBUG_STICKY = true.
+Proof. reflexivity. Qed.
+
+Lemma rcpt_spacebug_doc s : rcpt_spacebug s = doc_spacebug s.
+Proof.
+  unfold rcpt_spacebug, doc_spacebug. rewrite spacebug_is_sticky. cbv zeta.
+  destruct (negb (N.eqb (s_spaces s) 0)), (s_prebug s); reflexivity.
+Qed.
+
 Lemma Some_inj {A} (a b : A) : Some a = Some b -> a = b.
 Proof. intros H. inversion H. reflexivity. Qed.
 
@@ -658,10 +669,11 @@ Proof.
   destruct (negb (Nat.eqb (length slots) NFILTERS)); [discriminate|].
   destruct (load_level gm gf) as [gc|]; [|discriminate].
   destruct (load_configs um uf dm df) as [[uc dc]|]; [|discriminate].
-  destruct (all_results slots s uc dc gc) as [results|] eqn:Eres; [|discriminate].
+  rewrite rcpt_spacebug_doc in Hobs.
+  destruct (all_results (doc_spacebug s) slots s uc dc gc) as [results|] eqn:Eres; [|discriminate].
   destruct (setting_on (doc_setting false (level_says uc KEY_FAIL_HARD) (level_says dc KEY_FAIL_HARD) Unset)) as [fh|] eqn:Hfh; [|discriminate].
   destruct (setting_on (doc_setting false (level_says uc KEY_NONEXIST) (level_says dc KEY_NONEXIST) Unset)) as [ne|] eqn:Hne; [|discriminate].
-  pose proof (all_results_disciplined slots s uc dc gc results Hcl Eres) as Hdisc.
+  pose proof (all_results_disciplined _ slots s uc dc gc results Hcl Eres) as Hdisc.
   set (inorder := map (fun id => nth id results passed) RCPT_CBS) in *.
   assert (Hin : Forall disciplined inorder).
   { unfold inorder. apply Forall_forall. intros x Hx. apply in_map_iff in Hx. destruct Hx as [id [Hx _]]. subst x.
@@ -870,3 +882,19 @@ Qed.
 (** a file of plain lines is loaded as exactly these lines, in order *)
 Lemma parse_plain ls : Forall plain_line ls -> parse_conf (join_lines ls) = Some ls.
 Proof. intros H. unfold parse_conf. rewrite (mutate_join ls H), (split0_join ls H). reflexivity. Qed.
+
+(* ------------------------------------------------------------------------------------------------ *)
+(** * H. the space-bug flag is sticky *)
+
+(** a recipient whose effective smtp_space_bug is 255 refuses a client that has shown the bug in this command or
+    before it (MAIL FROM, an earlier RCPT TO), whatever the current line looks like *)
+Lemma smtpbugs_reject_all s uc dc gc :
+  doc_spacebug s = true ->
+  to_int (setting_value (getsettingglobal uc dc gc KEY_SMTP_SPACE_BUG)) = SPB_REJECT_ALL ->
+  cb_smtpbugs (rcpt_spacebug s) s uc dc gc = (FDeniedMsg, Some REPLY_SMTPBUGS).
+Proof.
+  intros Hb Hv. rewrite rcpt_spacebug_doc, Hb. unfold cb_smtpbugs. cbv zeta. rewrite Hv. reflexivity.
+Qed.
+
+Lemma smtpbugs_clean s uc dc gc : doc_spacebug s = false -> cb_smtpbugs (rcpt_spacebug s) s uc dc gc = passed.
+Proof. intros Hb. rewrite rcpt_spacebug_doc, Hb. reflexivity. Qed.
